@@ -2630,7 +2630,7 @@ class sptensor:
                 subs = self.subs[idx.transpose()[0]]
             return sptensor(
                 subs,
-                True * np.ones((self.subs.shape[0], 1)).astype(self.vals.dtype),
+                True * np.ones((subs.shape[0], 1)).astype(self.vals.dtype),
                 self.shape,
             )
 
